@@ -104,7 +104,7 @@ def wt : Ty → Val → Bool
   | .bytesN n, .fbytes bs => bs.length == n
   | .bytes, .bytes _ => true
   | .string, .str _ => true
-  | .darr t, .list vs => vs.all (fun v => wt t v)
+  | .darr t, .list vs => vs.length < 2 ^ 256 && vs.all (fun v => wt t v)   -- the length is encoded as a uint256
   | .farr t k, .list vs => vs.length == k && vs.all (fun v => wt t v)
   | .tuple ts, .list vs => wtList ts vs
   | _, _ => false
